@@ -3,7 +3,7 @@
    independent statement of "addressed instance / exactly / nothing else": theories/AttrOps/Spec.v. *)
 From Coq Require Import ZArith List String Bool.
 From PKGen Require Import AttrRuleTable.
-From PK Require Import AttrOps.Model AttrOps.Spec AttrOps.Proofs AttrOps.ExactProofs AttrOps.HistoryProofs AttrOps.ListLemmas.
+From PK Require Import AttrOps.Model AttrOps.Spec AttrOps.Proofs AttrOps.ExactProofs AttrOps.HistoryProofs AttrOps.ListLemmas AttrOps.GetAttrProofs.
 Import ListNotations.
 Open Scope string_scope.
 Open Scope Z_scope.
@@ -43,6 +43,25 @@ Theorem success_exact : forall v user s uid r,
     only_object_changed u o o' s (fst (step v user s uid r)).
 Proof. exact step_success_exact. Qed.
 Print Assumptions success_exact.
+
+(* --- ... which GetAttributes then reflects: under any protocol version the number of instances reported for the
+       addressed attribute follows the change (same / one fewer / none), and the addressed position holds the value *)
+Theorem getattributes_reflects : forall v v' user s uid r,
+  ver_ge v' (1, 0) = true ->
+  snd (step v user s uid r) = Success ->
+  exists u o o' ta, uid = Some u /\ find_obj u s = Some o /\ addressed v o r = Some ta /\ meets ta o o' /\
+    (stored_type (o_type o) = true ->
+     match ta with
+     | (TInstance f i, AReplace x) =>
+       forall n, mfield_of_name n = Some f ->
+         existing_count v' o' n = existing_count v' o n /\ nth_error (mget f o') i = Some x
+     | (TInstance f i, ARemove) =>
+       forall n, mfield_of_name n = Some f -> S (existing_count v' o' n) = existing_count v' o n
+     | (TAll f, _) => forall n, mfield_of_name n = Some f -> existing_count v' o' n = O
+     | (TSensitive, _) => True
+     end).
+Proof. exact GetAttrProofs.getattributes_reflects. Qed.
+Print Assumptions getattributes_reflects.
 
 (* --- an unsuccessful call changes nothing *)
 Theorem failure_frame : forall v user s uid r e,
